@@ -214,4 +214,18 @@ func TestSingleBit(t *testing.T) {
 	R.Exhaustive(fmt.Sprintf("single-bit: every single-bit fault in payload and CRC of a victim frame with payload 1..%d bytes, between frames and between junk (%d cases)", maxL, n))
 }
 
+// Independent handlers, each with its own corrupted stream, at the same time.
+func genPar(t *rapid.T) Case {
+	c := gen1(t)
+	if len(c.Stream.Bytes()) > 20000 {
+		c.Stream = gen.CleanStream(t, 4, 40, false)
+		c.Victim = -1
+	}
+	return c
+}
+
+var propParallel = stats.ParallelProp(R, "parallel", genPar, check, 4)
+
+func TestParallel(t *testing.T) { rapid.Check(t, propParallel) }
+
 func TestReplay(t *testing.T) { R.Replay(t) }
